@@ -274,7 +274,7 @@ def shrink(check, params, choices, sig, budget_s=20.0):
             i += 1
     # 4. lower values
     for i in range(len(best)):
-        if _real_time.time() >= t_end:
+        if _real_time.time() >= t_end or i >= len(best):
             break
         v = best[i]
         for nv in (1, v // 2, v - 1):
